@@ -69,6 +69,23 @@ fn slp_cut(bytes: &[u8], cut: usize, skip: bool) -> Result<(), Fail> {
 			format!("file of {} bytes cut at {}: the reader made {} read calls without finishing (loops without consuming input; skip_frames={}, compute_hash={})", bytes.len(), cut, r.reads, skip, hash),
 		));
 	}
+	// the same cut with the `debug` option (dumps event payloads into a directory): one cut in 64 of small files
+	if bytes.len() <= 4096 && (cut * 2654435761usize) >> 7 & 63 == 7 {
+		let p = rt::with_debug_dir(|dir| {
+			let o = peppi::io::slippi::de::Opts { skip_frames: skip, compute_hash: hash, debug: Some(peppi::io::slippi::de::Debug { dir: dir.to_path_buf() }) };
+			let mut r = crate::readers::SchedReader::new(&bytes[..cut], crate::readers::Schedule::Full);
+			match rt::guard(|| peppi::io::slippi::read(&mut r, Some(&o))) {
+				Out::Panic(p) => Some(Err(p)),
+				Out::Ok(_) => Some(Ok(())),
+				Out::Err(_) => None,
+			}
+		});
+		match p {
+			Some(Err(p)) => return Err(Fail::new(format!("op=truncated slp panic debug~{}", rt::panic_site(&p)), format!("cut at {} (skip_frames={}, compute_hash={}, debug=Some(dir)): {}", cut, skip, hash, p))),
+			Some(Ok(())) => return Err(Fail::new(format!("op=truncated slp accepted skip={} debug", skip), format!("file of {} bytes cut at {} was read as a game (debug option set)", bytes.len(), cut))),
+			None => {}
+		}
+	}
 	match out {
 		Out::Err(_) => Ok(()),
 		Out::Ok(g) => Err(Fail::new(
